@@ -148,9 +148,9 @@ theorem step_conn {w : World} (hI : WInv w) (e : Event) (j : Nat) (c : Conn) (hc
     cases hE : evConnected w k with
     | none => exact fromKeep w (Keep.of_quiet (Quiet.refl w)) rfl
     | some p => exact fromKeep _ (evConnected_keep hI hE) rfl
-  | connFail k =>
+  | connFail k e =>
     simp only [step]
-    cases hE : evConnFail w k with
+    cases hE : evConnFail w k e with
     | none => exact fromKeep w (Keep.of_quiet (Quiet.refl w)) rfl
     | some w' => exact fromKeep _ (Keep.of_quiet (evConnFail_quiet hE)) rfl
   | lost i => exact fromKeep _ (Keep.of_quiet (evLost_quiet w i)) rfl
@@ -418,7 +418,7 @@ theorem LInv_dstep {d : Duo} (h : LInv d) (ev : DEvent) : LInv (dstep d ev) := b
     | inbound => exact nilS _ (fun _ _ => rfl)
     | connect => exact nilS _ (fun _ _ => rfl)
     | connected k => exact nilS _ (fun _ _ => rfl)
-    | connFail k => exact nilS _ (fun _ _ => rfl)
+    | connFail k e => exact nilS _ (fun _ _ => rfl)
     | lost i => exact nilS _ (fun _ _ => rfl)
     | advance dt => exact nilS _ (fun _ _ => rfl)
     | setKey => exact nilS _ (fun _ _ => rfl)
@@ -438,7 +438,7 @@ theorem LInv_dstep {d : Duo} (h : LInv d) (ev : DEvent) : LInv (dstep d ev) := b
     | inbound => exact nilR _ (fun _ _ => rfl)
     | connect => exact nilR _ (fun _ _ => rfl)
     | connected k => exact nilR _ (fun _ _ => rfl)
-    | connFail k => exact nilR _ (fun _ _ => rfl)
+    | connFail k e => exact nilR _ (fun _ _ => rfl)
     | lost i => exact nilR _ (fun _ _ => rfl)
     | advance dt => exact nilR _ (fun _ _ => rfl)
     | setKey => exact nilR _ (fun _ _ => rfl)
@@ -576,7 +576,7 @@ theorem dstep_sides (d : Duo) (ev : DEvent) :
     | inbound => exact ⟨⟨[.inbound], rfl⟩, ⟨[], rfl⟩⟩
     | connect => exact ⟨⟨[.connect], rfl⟩, ⟨[], rfl⟩⟩
     | connected k => exact ⟨⟨[.connected k], rfl⟩, ⟨[], rfl⟩⟩
-    | connFail k => exact ⟨⟨[.connFail k], rfl⟩, ⟨[], rfl⟩⟩
+    | connFail k e => exact ⟨⟨[.connFail k e], rfl⟩, ⟨[], rfl⟩⟩
     | lost i => exact ⟨⟨[.lost i], rfl⟩, ⟨[], rfl⟩⟩
     | advance dt => exact ⟨⟨[.advance dt], rfl⟩, ⟨[], rfl⟩⟩
     | setKey => exact ⟨⟨[.setKey], rfl⟩, ⟨[], rfl⟩⟩
@@ -590,7 +590,7 @@ theorem dstep_sides (d : Duo) (ev : DEvent) :
     | inbound => exact ⟨⟨[], rfl⟩, ⟨[.inbound], rfl⟩⟩
     | connect => exact ⟨⟨[], rfl⟩, ⟨[.connect], rfl⟩⟩
     | connected k => exact ⟨⟨[], rfl⟩, ⟨[.connected k], rfl⟩⟩
-    | connFail k => exact ⟨⟨[], rfl⟩, ⟨[.connFail k], rfl⟩⟩
+    | connFail k e => exact ⟨⟨[], rfl⟩, ⟨[.connFail k e], rfl⟩⟩
     | lost i => exact ⟨⟨[], rfl⟩, ⟨[.lost i], rfl⟩⟩
     | advance dt => exact ⟨⟨[], rfl⟩, ⟨[.advance dt], rfl⟩⟩
     | setKey => exact ⟨⟨[], rfl⟩, ⟨[.setKey], rfl⟩⟩
